@@ -38,7 +38,11 @@ def from_dual_obligations(prefix):
     guard(obs, prefix + ".from_dual", u, dimc + gproj, ctx)
     act = [TRUE, Not(dim.is_("OneD")), dim.is_("ThreeD")]
     want = tm.Sum([Ite(act[a], (g.c[a] - vloc.c[a]) * (g.c[a] - vloc.c[a]), R0) for a in range(3)])
-    ensure(obs, prefix + ".from_dual", "radius2_is_squared_distance_in_active_subspace", u, dimc + gproj, ctx, Eq(r.f["radius2"], want))
+    o_r2 = ensure(obs, prefix + ".from_dual", "radius2_is_squared_distance_in_active_subspace", u, dimc + gproj, ctx, Eq(r.f["radius2"], want))
+    def _replay_r2(ob):
+        from .c16 import replay_radius
+        return replay_radius(ob)
+    o_r2.replay = _replay_r2
     ensure(obs, prefix + ".from_dual", "loc_is_intersection_of_the_three_dual_planes_dual_recorded_in_order", u, dimc + gproj, ctx,
            And(veq(r.f["loc"], vloc), Eq(r.f["dual"].e[0], i), Eq(r.f["dual"].e[1], j), Eq(r.f["dual"].e[2], k)))
     # the three planes handed to intersect_planes are half_spaces[i], [j], [k] in this order
